@@ -79,13 +79,49 @@ def gen_cases(rng, tier, rnd):
             case['edit'] = [which, edits.propose(rng, case[which])]
         if rng.random() < 0.2:
             case['prelude'] = edits.twin(rng, case['d2'])     # D1 is compared with a twin of D2 earlier in the same interpreter
+        if rng.random() < 0.12:
+            # how the second operand came to be: not built on its own, but derived from the live first operand - the very
+            # same object, a library result that may share components with its argument, or a DFA constructed around
+            # D1's own transition map / state set with another initial state or accepting set
+            how = rng.choice(['same-object', 'dfa_complement', 'dfa_complement', 'share-delta-other-F', 'share-delta-other-q0', 'share-delta-same',
+                              'dfa_remove_unreachable_states', 'dfa_quotient', 'deepcopy'])
+            case['derive'] = {'how': how, 'F': [q for q in s1['Q'] if rng.random() < 0.5], 'q0': rng.choice(s1['Q'])}
+            case.pop('edit', None)
+            case['kind'] = 'derived:' + how
         cases.append(case)
     return cases
+
+
+def _derive(D1, d):
+    from gambatools.dfa import DFA
+    how = d['how']
+    if how == 'same-object':
+        return D1
+    if how == 'deepcopy':
+        return copy.deepcopy(D1)
+    if how in ('dfa_complement', 'dfa_remove_unreachable_states', 'dfa_quotient'):
+        return getattr(da, how)(D1)
+    F = {q for q in D1.Q if q in set(d['F'])}
+    q0 = next((q for q in D1.Q if q == d['q0']), D1.q0)
+    if how == 'share-delta-other-F':
+        return DFA(D1.Q, D1.Sigma, D1.delta, D1.q0, F)
+    if how == 'share-delta-other-q0':
+        return DFA(D1.Q, D1.Sigma, D1.delta, q0, D1.F)
+    return DFA(D1.Q, D1.Sigma, D1.delta, D1.q0, D1.F)
 
 
 def run_case(case, env):
     D1, D2 = build(case['d1']), build(case['d2'])
     out = {'viol': [], 'evals': 0, 'ticks': 0, 'probes': {}, 'hist': {}}
+    if case.get('derive'):
+        try:
+            D2 = _derive(D1, case['derive'])
+        except Exception as e:
+            return {'harness_error': 'cannot derive the second operand (%s): %r' % (case['derive'], e)}
+        out['probes']['second_operand_derived_from_first'] = 1
+        out['hist']['derive_' + case['derive']['how']] = 1
+        if D2.delta is D1.delta:
+            out['probes']['operands_share_transition_map'] = 1
     if case.get('prelude'):
         T = build(case['prelude'])
         for fn in FUNCS:
@@ -147,7 +183,7 @@ def run_case(case, env):
 
 
 def shrink(case):
-    for key in ('edit', 'prelude'):
+    for key in ('edit', 'prelude', 'derive'):
         if case.get(key):
             c = copy.deepcopy(case)
             del c[key]
